@@ -10,6 +10,12 @@ Programs are core-style (gen/core.py: lines 1/2/3) extended with
   7 bias (off val)*    (main only) companion graph: source emitting val at start+off -> nested child
                        (stateful: acc += x + bias) -> sink counting in GlobalState key 900, plus the standard
                        dense in-memory recorder of the nested node's output under "rec"
+  10 spec              a parametrised schema the driver requests from the type registry (main: as given; noise sections:
+                       variants differing from a main spec in exactly ONE component).  spec := 0 s (TS) | 1 s (TSS) |
+                       2 s spec (TSD) | 3 n spec (TSL) | 4 s period min_period (TSW) | 5 nf (name spec)* (TSB) | 6 spec (REF);
+                       scalars 0 int64 1 double 2 bool.  Flag 2 of the plan: noise variants are requested first.
+  11 k sparse          (main, with a companion) k chained companion runs: run j+1's builder GlobalState is a copy of run
+                       j's FINAL GlobalState (copy-back flow); recorder layout sparse (time, delta) or dense
   9 R F T sleep flags  plan: R repetitions from ONE builder, F from fresh builders, T threads, seed of the
                        pseudo-random sleeps in node code (0 = none); flags  1 noise runs between repetitions,
                        2 all reuse executors built before any runs, 4 threads build their own executors,
@@ -25,6 +31,11 @@ followed by the core observation lines (10..15, 19) with, woven in after each li
   20 i t key v | 21 i t key present v | 22 i t key removed      GlobalState ops
 and after the run   24 key v (sorted; key -1 = a key that is not one of ours, e.g. "rec")   25 number-of-keys.
 Companion runs print  30 t x acc (child node)  31 t v count (sink)  32 idx 1 v (recorded)  33 recorded-length.
+  43 section 0          schema requests of that section:  50 section <spec the returned schema describes>   52 same pointer
+                        on a second request   51 cycle size period min_period valid all_valid (contents)* (run-time probe of
+                        a top-level TSW[int64])
+  44 k sparse           chained companion run k:  30 / 31 lines,  32 idx 1 v (dense) | 34 cycle v (sparse),  33 entries
+The Coq model does not cover sections 43 / 44 (`agree` strips them); the oracle states them from a Python reference.
 Other:  99 a callback ran inside a run of another program;  18 build / thread error.
 """
 import random
@@ -60,6 +71,101 @@ def _extras(rng, prog, keys, other_keys):
     return out
 
 
+def _rand_spec(rng, depth=0):
+    r = rng.random()
+    if depth >= 2 or r < 0.15:
+        return [0, rng.choice([0, 1, 2])]
+    if r < 0.50:
+        period = rng.choice([2, 3, 3, 4])
+        return [4, rng.choice([0, 0, 0, 1]), period, rng.randint(1, period)]
+    if r < 0.65:
+        return [3, rng.randint(1, 3)] + _rand_spec(rng, depth + 1)
+    if r < 0.80:
+        names = rng.sample([1, 2, 3, 4], rng.randint(1, 3))
+        out = [5, len(names)]
+        for nm in names:
+            out += [nm] + _rand_spec(rng, depth + 1)
+        return out
+    if r < 0.90:
+        return [2, rng.choice([0, 2])] + _rand_spec(rng, depth + 1)
+    if r < 0.95:
+        return [1, rng.choice([0, 2])]
+    inner = _rand_spec(rng, depth + 1)
+    return inner if inner[0] == 6 else [6] + inner
+
+
+def _spec_slots(spec, pos=0, out=None):
+    """Positions of the mutable components of a spec with their admissible values; returns (end, slots)."""
+    out = [] if out is None else out
+    k = spec[pos]
+    if k == 0:
+        out.append((pos + 1, [0, 1, 2])); return pos + 2, out
+    if k == 1:
+        out.append((pos + 1, [0, 2])); return pos + 2, out
+    if k == 2:
+        out.append((pos + 1, [0, 2])); return _spec_slots(spec, pos + 2, out)
+    if k == 3:
+        out.append((pos + 1, [1, 2, 3, 4])); return _spec_slots(spec, pos + 2, out)
+    if k == 4:
+        out.append((pos + 1, [0, 1]))
+        out.append((pos + 2, [v for v in (2, 3, 4, 5) if v >= spec[pos + 3]]))
+        out.append((pos + 3, list(range(1, spec[pos + 2] + 1))))
+        return pos + 4, out
+    if k == 5:
+        q = pos + 2
+        for _ in range(spec[pos + 1]):
+            used = set()
+            out.append((q, [1, 2, 3, 4, 5, 6])); q, _o = _spec_slots(spec, q + 1, out)
+        return q, out
+    if k == 6:
+        return _spec_slots(spec, pos + 1, out)
+    raise ValueError(spec)
+
+
+def _variant(rng, spec):
+    """The same spec with exactly one component changed (field names stay distinct)."""
+    for _ in range(20):
+        _, slots = _spec_slots(spec)
+        pos, vals = rng.choice(slots)
+        vals = [v for v in vals if v != spec[pos]]
+        if not vals:
+            continue
+        v2 = list(spec)
+        v2[pos] = rng.choice(vals)
+        if _valid_spec(v2):
+            return v2
+    return list(spec)
+
+
+def _valid_spec(spec):
+    try:
+        end, _ = _spec_slots(spec)
+        if end != len(spec):
+            return False
+    except Exception:
+        return False
+    # distinct field names inside each TSB
+    def walk(pos):
+        k = spec[pos]
+        if k in (0, 1):
+            return pos + 2
+        if k in (2, 3):
+            return walk(pos + 2)
+        if k == 4:
+            return pos + 4 if 1 <= spec[pos + 3] <= spec[pos + 2] else None
+        if k == 5:
+            q, names = pos + 2, []
+            for _ in range(spec[pos + 1]):
+                names.append(spec[q]); q = walk(q + 1)
+                if q is None:
+                    return None
+            return q if len(set(names)) == len(names) else None
+        if k == 6:
+            # REF is idempotent by design (TypeRegistry::ref returns a REF argument unchanged): never REF[REF[..]]
+            return None if spec[pos + 1] == 6 else walk(pos + 1)
+    return walk(0) == len(spec)
+
+
 def _small_core(rng, tier, prop):
     c = core.gen(rng, "quick", prop)
     # keep noise programs short
@@ -91,10 +197,19 @@ def gen(rng, tier, prop):
     flags = rng.randint(0, 31)
     if rng.random() < 0.5:
         flags |= 1
+    has_comp = any(l[0] == 7 for l in main)
+    if has_comp and rng.random() < 0.8:
+        main.append([11, rng.randint(2, 3), 1 if rng.random() < 0.7 else 0])
+    specs = [_rand_spec(rng) for _ in range(rng.choice([0, 1, 2, 2, 3]))]
+    for sp in specs:
+        main.append([10] + sp)
     case = [[9, R, F, T, sleep, flags]] + main
     for j in range(1, rng.randint(1, 3) + 1):
         nz = _small_core(rng, tier, "C07")
         nz += _extras(rng, nz, NOISE_KEYS, MAIN_KEYS)
+        for sp in specs:
+            if rng.random() < 0.7:
+                nz.append([10] + _variant(rng, sp))
         case.append([8, j])
         case += nz
     return case
@@ -147,6 +262,14 @@ def expected_headers(case):
             kind = "M"
         thr.append(("N", 1 + (j // 2) % m) if kind == "N" else ("C", 3) if kind == "C" else ("M", 3))
     evs = [("M", 0)] + (thr + seq if pl["flags"] & 16 else seq + thr)
+    chain = next(([l[1], l[2]] for l in secs[0] if l[0] == 11 and len(l) >= 3), None)
+    tail = []
+    if comp and chain and chain[0] > 0:
+        tail += [[44, k, int(chain[1] != 0)] for k in range(chain[0])]
+    order = list(range(len(secs)))
+    if pl["flags"] & 2:
+        order.reverse()
+    tail += [[43, sct, 0] for sct in order if any(l[0] == 10 and len(l) >= 3 for l in secs[sct])]
     hdr, rep, n, crep = [], 0, 0, 0
     for k, a in evs:
         if k == "M":
@@ -155,14 +278,14 @@ def expected_headers(case):
             hdr.append([41, a, n]); n += 1
         else:
             hdr.append([42, crep, a]); crep += 1
-    return hdr
+    return hdr + tail
 
 
 def units(out):
     """Split an observation into runs: [(header, lines)]."""
     us = []
     for l in out:
-        if l and l[0] in (40, 41, 42) and len(l) == 3:
+        if l and l[0] in (40, 41, 42, 43, 44) and len(l) == 3:
             us.append((l, []))
         elif us:
             us[-1][1].append(l)
@@ -283,6 +406,85 @@ def _check_comp(tag, sec, lines, fails):
                       "%s: GlobalState after the run is %s; seed + own writes imply %s" % (tag, dump, sorted(exp.items()))))
 
 
+def _check_chain(tag, sec, lines, sparse, carried, fails):
+    """A chained companion run: seeded from the previous run's final GlobalState, so the sink counter carries on -
+    but the nested child's State and the RECORDING must be this run's own."""
+    bias = next((l[1] for l in sec if l[0] == 7 and len(l) >= 2), 0)
+    acc, rec = 0, []
+    cnt = carried
+    for l in lines:
+        if l[0] in (18, 19, 99):
+            fails.append(("unexpected_error", "%s: chained companion run failed (%s)" % (tag, l)))
+        elif l[0] == 30:
+            t, x, a = l[1], l[2], l[3]
+            if a != acc + x + bias:
+                fails.append(("child_state_leak", "%s: nested child State %d at %d; its own history (start 0) implies %d" % (tag, a, t, acc + x + bias)))
+            acc = a
+            rec.append((t - 1, a))
+        elif l[0] == 31:
+            cnt += 1
+            if l[3] != cnt:
+                fails.append(("gs_counter", "%s: sink counter %d at %d; the seed it was given + own history imply %d" % (tag, l[3], l[1], cnt)))
+    if sparse:
+        got = [(l[1], l[2]) for l in lines if l[0] == 34]
+        n = len(rec)
+    else:
+        got = [(l[1], l[3]) for l in lines if l[0] == 32]
+        n = rec[-1][0] + 1 if rec else 0
+    if got != rec:
+        fails.append(("record_leak", "%s: recording read back %s; this run ticked %s (entries of an earlier run are visible)" % (tag, got, rec)
+                      if len(got) > len(rec) else "%s: recording read back %s; this run ticked %s" % (tag, got, rec)))
+    size = [l[1] for l in lines if l[0] == 33]
+    if size != [n]:
+        fails.append(("record_leak", "%s: recording length %s; this run implies %d" % (tag, size, n)))
+    return cnt
+
+
+def _check_schemas(tag, sct, sec, lines, fails):
+    """Every schema handed out by the registry is the one requested, whatever was interned before; the tick-window
+    probe behaves as a window of the requested period / min_period."""
+    specs = [l[1:] for l in sec if l[0] == 10 and len(l) >= 3]
+    pos = 0
+    for sp in specs:
+        exp = [50, sct] + sp
+        got = lines[pos] if pos < len(lines) else None
+        if got != exp:
+            fails.append(("schema_confused", "%s: requested %s, the registry handed out a schema describing itself as %s"
+                          % (tag, sp, got[2:] if got and got[0] == 50 else got)))
+        pos += 1
+        got = lines[pos] if pos < len(lines) else None
+        if got != [52, 1]:
+            fails.append(("schema_confused", "%s: a second request of %s did not return the same schema (%s)" % (tag, sp, got)))
+        pos += 1
+        if sp[0] == 4 and sp[1] == 0:
+            period, minp = sp[2], sp[3]
+            for c in range(period + 2):
+                size = min(c + 1, period)
+                exp = [51, c, size, period, minp, 1, int(size >= minp)] + list(range(c + 2 - size, c + 2))
+                got = lines[pos] if pos < len(lines) else None
+                if got != exp:
+                    fails.append(("window_trace", "%s: window probe of TSW[int,%d,%d] printed %s, a window with these parameters gives %s"
+                                  % (tag, period, minp, got, exp)))
+                pos += 1
+    if pos != len(lines):
+        fails.append(("plan_shape", "%s: %d lines, expected %d" % (tag, len(lines), pos)))
+
+
+def strip_unmodelled(out):
+    """The observation without the sections the Coq model does not cover (43 schema probes, 44 chained runs)."""
+    res, keep = [], True
+    for l in out:
+        if l and len(l) == 3 and l[0] in (40, 41, 42, 43, 44):
+            keep = l[0] not in (43, 44)
+        if keep:
+            res.append(l)
+    return res
+
+
+def agree(case, impl_out, model_out):
+    return isinstance(impl_out, list) and isinstance(model_out, list) and strip_unmodelled(impl_out) == model_out
+
+
 def oracle(prop, case, out):
     """C07 stated on the implementation's output alone: (1) every repetition of a program is identical to its
     first run, whatever happened in the process before / at the same time / however slow the wall clock;
@@ -297,7 +499,15 @@ def oracle(prop, case, out):
     if hdr != exp:
         fails.append(("plan_shape", "runs printed %s; the plan prescribes %s" % (hdr[:12], exp[:12])))
     first = {}
+    carried = 0
     for h, lines in us:
+        if h[0] == 43:
+            if 0 <= h[1] < len(secs):
+                _check_schemas("schema requests of section %d" % h[1], h[1], secs[h[1]], lines, fails)
+            continue
+        if h[0] == 44:
+            carried = _check_chain("chained companion run %d (%s)" % (h[1], "sparse" if h[2] else "dense"), secs[0], lines, h[2], carried, fails)
+            continue
         if h[0] == 40:
             key, what = ("M",), "main program repetition %d (phase %d)" % (h[1], h[2])
         elif h[0] == 41:
@@ -330,7 +540,7 @@ def oracle(prop, case, out):
 PROP_KINDS = {
     "C07": {"rep_differs", "noise_rep_differs", "comp_rep_differs", "plan_shape", "callback_cross_run", "build_error",
             "unexpected_error", "state_leak", "child_state_leak", "gs_counter", "gs_foreign_read", "gs_foreign_key",
-            "gs_keys", "record_leak"},
+            "gs_keys", "record_leak", "schema_confused", "window_trace"},
 }
 
 
@@ -354,7 +564,11 @@ def stats(case, out):
           "flag_threads_first": (pl["flags"] >> 4) & 1,
           "companion_cases": int(any(l[0] == 7 for l in secs[0])),
           "seed_keys": sum(1 for l in secs[0] if l[0] == 6), "gs_ops_declared": sum(1 for l in secs[0] if l[0] == 4),
-          "state_nodes": sum(1 for l in secs[0] if l[0] == 5)}
+          "state_nodes": sum(1 for l in secs[0] if l[0] == 5),
+          "schema_requests": sum(1 for sec in secs for l in sec if l[0] == 10),
+          "tsw_specs": sum(1 for sec in secs for l in sec if l[0] == 10 and len(l) > 1 and l[1] == 4),
+          "chained_cases_sparse": int(any(l[0] == 11 and l[2] for l in secs[0]) and any(l[0] == 7 for l in secs[0])),
+          "chained_cases_dense": int(any(l[0] == 11 and not l[2] for l in secs[0]) and any(l[0] == 7 for l in secs[0]))}
     if isinstance(out, list):
         us = units(out)
         st["main_runs"] = sum(1 for u in us if u[0][0] == 40)
@@ -368,6 +582,8 @@ def stats(case, out):
         st["gs_erases_rep0"] = sum(1 for l in m0 if l[0] == 22)
         st["state_updates_rep0"] = sum(1 for l in m0 if l[0] == 23)
         st["error_runs_rep0"] = sum(1 for l in m0 if l[0] == 19)
+        st["chained_runs"] = sum(1 for u in us if u[0][0] == 44)
+        st["window_probe_cycles"] = sum(1 for u in us if u[0][0] == 43 for l in u[1] if l[0] == 51)
         st["recorded_ticks"] = sum(1 for u in us[:] if u[0][0] == 42 for l in u[1] if l[0] == 32)
     return st
 
@@ -403,21 +619,21 @@ def shrink(case):
             yield build(main, noises, p2)
     # drop extension lines / companion of the main program, then of the noise programs
     for k, l in enumerate(main):
-        if l[0] in (4, 5, 6, 7):
+        if l[0] in (4, 5, 6, 7, 10, 11):
             yield build(main[:k] + main[k + 1:], noises, plan_line)
     for j, nz in enumerate(noises):
         for k, l in enumerate(nz):
-            if l[0] in (4, 5, 6):
+            if l[0] in (4, 5, 6, 10):
                 yield build(main, noises[:j] + [nz[:k] + nz[k + 1:]] + noises[j + 1:], plan_line)
     # core shrinking of the main program (scripts, last node, window) keeping the extension lines that stay valid
     core_part = [l for l in main if l[0] in (1, 2, 3)]
-    ext = [l for l in main if l[0] in (4, 5, 6, 7)]
+    ext = [l for l in main if l[0] in (4, 5, 6, 7, 10, 11)]
     for c2 in core.shrink(core_part):
         nn = sum(1 for l in c2 if l[0] == 2)
-        yield build(c2 + [l for l in ext if l[0] in (6, 7) or l[1] < nn], noises, plan_line)
+        yield build(c2 + [l for l in ext if l[0] in (6, 7, 10, 11) or l[1] < nn], noises, plan_line)
     for j, nz in enumerate(noises):
         core_part = [l for l in nz if l[0] in (1, 2, 3)]
-        ext = [l for l in nz if l[0] in (4, 5, 6)]
+        ext = [l for l in nz if l[0] in (4, 5, 6, 10)]
         for c2 in core.shrink(core_part):
             nn = sum(1 for l in c2 if l[0] == 2)
-            yield build(main, noises[:j] + [c2 + [l for l in ext if l[0] == 6 or l[1] < nn]] + noises[j + 1:], plan_line)
+            yield build(main, noises[:j] + [c2 + [l for l in ext if l[0] in (6, 10) or l[1] < nn]] + noises[j + 1:], plan_line)
